@@ -153,11 +153,16 @@ func determineCompletionContext(content string, pos protocol.Position, ctx *prot
 		return tagCtx
 	}
 
-	if ctx != nil && ctx.TriggerCharacter == ":" {
+	// a trigger character says what was typed, not where: ':' opens an account
+	// segment and '@' / '=' a cost or an assertion only on a posting line (in a
+	// header "Amazon:" is a payee being typed and "2024-01-03=" a secondary date)
+	onPostingLine := strings.HasPrefix(line, " ") || strings.HasPrefix(line, "\t")
+
+	if ctx != nil && ctx.TriggerCharacter == ":" && onPostingLine {
 		return ContextAccount
 	}
 
-	if ctx != nil && (ctx.TriggerCharacter == "@" || ctx.TriggerCharacter == "=") {
+	if ctx != nil && (ctx.TriggerCharacter == "@" || ctx.TriggerCharacter == "=") && onPostingLine {
 		return ContextCommodity
 	}
 
